@@ -431,7 +431,7 @@ func floatOracle(d dir, f float64) sx.Sexp {
 // with the oracle instead of implementation-only
 func emitWithOracle(g *core.G, ctx sx.Sexp, v sx.Sexp) bool {
 	mode := ctx.Tag()
-	if mode != "kind" && mode != "self" {
+	if mode != "kind" && mode != "self" && mode != "new" {
 		return false
 	}
 	d := parseDir(ctx.Args()[0].MustStr())
@@ -470,7 +470,8 @@ func emitFmt(g *core.G, ctx sx.Sexp, v sx.Sexp) {
 		n := newNode(ctx.Args()[0].MustStr())
 		k := kindKey(v.Tag())
 		in = modelled(v, []entry{{key: k, n: n}}, false)
-	case "self":
+	case "self", "new":
+		// new = px.New(c, String, v, directive): the String constructor builds the same context as self
 		n := newNode(ctx.Args()[0].MustStr())
 		// an alias or an object type under its own type as the key: which nested types that key accepts is a lattice question
 		in = modelled(v, []entry{{key: "self", n: n}}, false) && v.Tag() != "l" && v.Tag() != "q"
@@ -883,7 +884,8 @@ func gen(g *core.G) {
 			mode = "new"
 		}
 		d := randDirective(r, v.Tag())
-		if mode == "new" {
+		if mode == "new" && !parseDir(d).ok {
+			// how the constructor reports a directive outside the grammar is dispatch's business (C16)
 			g.Emit("@fmt " + ctx1("new", d).String() + " " + v.String())
 			continue
 		}
@@ -1220,7 +1222,7 @@ func genX(g *core.G) {
 			mode = "new"
 		}
 		d := randDirective(r, v.Tag())
-		if mode == "new" {
+		if mode == "new" && !parseDir(d).ok {
 			g.Emit("@fmtx " + ctx1("new", d).String() + " " + v.String())
 			continue
 		}
